@@ -98,12 +98,20 @@ thread_local! {
 pub fn set_shrink_iters(n: u32) {
     SHRINK_ITERS.with(|c| c.set(n));
 }
+thread_local! {
+    /// wall-clock bound (ms, 0 = none) on the shrinking of one failure; never on the search itself
+    pub static SHRINK_TIME_MS: Cell<u32> = Cell::new(0);
+}
+pub fn set_shrink_time_ms(n: u32) {
+    SHRINK_TIME_MS.with(|c| c.set(n));
+}
 
 pub fn proptest_runner(seed: u64, cases: u32) -> TestRunner {
     let mut cfg = Config::default();
     cfg.cases = cases;
     cfg.failure_persistence = None;
     cfg.max_shrink_iters = SHRINK_ITERS.with(|c| c.get());
+    cfg.max_shrink_time = SHRINK_TIME_MS.with(|c| c.get());
     cfg.max_global_rejects = 1_000_000;
     cfg.max_local_rejects = 1_000_000;
     cfg.verbose = 0;
